@@ -162,6 +162,19 @@ def scenario(sseed, mode, do_reload=True):
                     pv = list(gen.build_hp(par).values)
                     cond = (par["name"], [R.choice(pv)])
                 late.append((f"u{j}", R.choice(["bool", "int", "choice"]), cond))
+            # a late twin: an entry of the given space that lives under some values of a top-level parent gets a namesake
+            # under the parent's OTHER values, with a domain of its own, declared only while trials run
+            cands = [s_ for s_ in specs if len(s_["conds"]) == 1 and any(t_["name"] == s_["conds"][0][0] for t_ in tops)
+                     and sum(1 for q_ in specs if q_["name"] == s_["name"]) == 1]
+            if cands and R.random() < 0.5:
+                e_ = R.choice(cands)
+                par_ = next(t_ for t_ in tops if t_["name"] == e_["conds"][0][0])
+                other = [v_ for v_ in gen.build_hp(par_).values if not any(same(v_, w_) for w_ in e_["conds"][0][1])]
+                if other:
+                    if R.random() < 0.5:
+                        late.clear()          # the namesake is the only thing reported late: no new NAME appears at all
+                    late.append((e_["name"], "int20", (par_["name"], other)))
+                    tags["late-twin"] += 1
             tags["uniform"] += 1
 
         def declare_late(hps):
@@ -172,8 +185,24 @@ def scenario(sseed, mode, do_reload=True):
                         hps.Boolean(nm)
                     elif kind == "int":
                         hps.Int(nm, 0, 2)
+                    elif kind == "int20":
+                        hps.Int(nm, 20, 22)
                     else:
                         hps.Choice(nm, ["p", "q", "r"], default="q")
+
+        def late_specs():
+            out = []
+            for nm, kind, cond in late:
+                conds = [[cond[0], list(cond[1])]] if cond else []
+                if kind == "bool":
+                    out.append(dict(name=nm, kind="bool", conds=conds, default=False))
+                elif kind == "int":
+                    out.append(dict(name=nm, kind="int", conds=conds, lo=0, hi=2, step=None, sampling="linear", default=None))
+                elif kind == "int20":
+                    out.append(dict(name=nm, kind="int", conds=conds, lo=20, hi=22, step=None, sampling="linear", default=None))
+                else:
+                    out.append(dict(name=nm, kind="choice", conds=conds, values=["p", "q", "r"], default="q"))
+            return out
         while steps < 6000 and not aborted and (hold or len(stopped) < len(tun)):
             steps += 1
             if steps == reload_at and do_reload:
@@ -276,7 +305,15 @@ def scenario(sseed, mode, do_reload=True):
                     raise Violation("C09", f"combination tried twice under discovery: {dup[0]}", {"tag": "duplicate", "mode": mode})
                 # coverage of the space as it stands at the end: every trial's final values (entries it never saw
                 # at their defaults - that is what its build function used) against the enumeration of the final space
-                fspecs = gen.specs_of(o.hyperparameters)
+                # the final space as it has to be: what was given plus what every trial declares - computed from the scenario,
+                # not read back from the oracle (an entry the oracle failed to merge must show)
+                fspecs = (specs + late_specs()) if uniform else gen.specs_of(o.hyperparameters)
+                if uniform and len(o.trials) >= 1:
+                    have_ = {(p_.name, tuple((c_.name, tuple(map(str, c_.values))) for c_ in p_.conditions)) for p_ in o.hyperparameters.space}
+                    want_ = {(s_["name"], tuple((c_[0], tuple(map(str, c_[1]))) for c_ in s_["conds"])) for s_ in fspecs}
+                    if want_ - have_:
+                        raise Violation("C09", f"entries {sorted(want_ - have_)[:2]} reported by every finished trial are not part of the oracle's search space",
+                                        {"tag": "late-entry-not-merged", "mode": mode})
                 fref = enumerate_space(fspecs) if uniform else []
                 if uniform and len(fref) <= 3000:
                     fin = collections.Counter(canon(complete_defaults(dict(tr.hyperparameters.values), fspecs)) for tr in o.trials.values())
